@@ -130,10 +130,12 @@ struct Gen {
                 bytes b((size_t)v.size, 0);
                 if (v.type == T_STRING) {
                         int len = (int)r.range(0, v.size - 1);
+                        // "grammar soup": a value made of nothing but the characters the argument grammar gives a meaning to
+                        double p_special = r.chance(0.15) ? 1.0 : 0.2;
                         for (int i = 0; i < len; i++) {
                                 char c;
                                 do {
-                                        c = r.chance(0.2) ? "\"\\\n,"[r.below(4)] : (char)r.range(1, 255);
+                                        c = r.chance(p_special) ? "\"\\\n, n"[r.below(6)] : (char)r.range(1, 255);
                                 } while (c == 0 || c == '\r');
                                 b[(size_t)i] = c;
                         }
@@ -613,6 +615,8 @@ struct Gen {
                         bool valid = all_valid || r.chance(0.7);
                         if (i)
                                 a += ',';
+                        if (i && r.chance(0.03))
+                                a += ' '; // a blank after the separator is not part of any argument grammar
                         a += gen_arg(v, valid);
                 }
                 if (r.chance(0.04))
